@@ -330,7 +330,8 @@ package scanner
 // follows it (its length comes from the schema library); an unquoted parameter ends before its separator, a quoted one at
 // its closing quote; a one-line annotation ends before '#'; a block annotation before its "*/". A parameter / annotation
 // begins at the byte its start state is run on. (gFree: one past the end of the last closed lexeme.) A "(" in front of a
-// body and a ")" where a directive may start are reported as context lexemes (C11: ")" closes the innermost explicit
+// body (after it the same state goes on waiting for the body: blanks, line breaks and comments before it are not part of
+// it) and a ")" where a directive may start are reported as context lexemes (C11: ")" closes the innermost explicit
 // context - which presupposes that every "(" opened one).
 //@ functype stepFunc(s, c)
 //@   property C01,C12,C13,C08
@@ -366,7 +367,7 @@ package scanner
 //@       iff(result == nil, isSeparator(c)) && imp(result != nil, result.Index == old(s.curIndex)))
 //@   ensures[C12,C11,@paren-is-reported] imp((self == stateBodyBody || self == stateEnumBody || self == stateHeaderBody || self == stateParamsBody || self == statePathBody
 //@       || self == stateQueryBodyOrKeyword || self == stateRequestBody || self == stateResponseBody || self == stateResultBody || self == stateTypeBody)
-//@       && c == '(' && result == nil, s.gPhase == 4)
+//@       && c == '(' && result == nil, s.gPhase == 4 && s.step == self)
 //@   ensures[C12,C11,@closing-paren-is-reported] imp(self == stateExpectKeyword && c == ')' && result == nil, s.gPhase == 0)
 //@   ensures[C12,@exact-body-end] imp((self == stateSchemaClosed || self == stateEnumBodyClose) && result == nil, s.gOpen == 0 && s.gFree == old(s.curIndex))
 //@   ensures[C12,@exact-separator-emits-nothing] imp(self == stateParameterOrAnnotation, s.gFree == old(s.gFree) && s.gOpen == old(s.gOpen))
